@@ -12,5 +12,5 @@ git -C "$REPO" apply --numstat "$patchf" 2>/dev/null | awk '{print $3}' | while 
   mkdir -p "$tmp/$(dirname "$f")"
   [ -f "$REPO/$f" ] && cp "$REPO/$f" "$tmp/$f"
 done
-( cd "$tmp" && patch -s -p1 --no-backup-if-mismatch < "$patchf" ) || { echo "SELFTEST: patch does not apply: $patchf"; exit 3; }
+( cd "$tmp" && patch -s -p1 -F0 --no-backup-if-mismatch < "$patchf" ) || { echo "SELFTEST: patch does not apply: $patchf"; exit 3; }
 "$VERIF/bin/f1lint" -prop "$prop" -repo "$REPO" -verif "$VERIF" -overlay "$tmp" -no-evidence "$@"
